@@ -116,7 +116,7 @@ theorem C06_relex_same_tag (env : Env κ) (L : Labels) (TT : TLabels) (P : PLabe
     relex_head_run (inp := inp) hside.head hside.relex hG x H.length cl l [] hstart (by simp)
   refine ⟨c', l', hsil, by rw [e1, h3], e2, e3, ?_⟩
   rcases relex_step_fin (x := x) hside.relex hG hhead with herr | ⟨l1, q, A', _, _, hfc, _, r1, r2, r3, r4⟩
-  · exact Or.inl herr
+  · exact Or.inl ⟨_, herr⟩
   · exact Or.inr ⟨l1, q, hfc, r1, by rw [r2, e2], by rw [r3, e1, h3], r4⟩
 
 /-- the lexer loaded by `continue_from_bookmark` satisfies the premises of `C06_relex_same_tag` -/
